@@ -46,6 +46,7 @@ StubPool = StubBase
 class RecordingCallable:
     def __init__(self, kind, result=None, name="fn"):
         self.kind, self.result, self.name = kind, result, name
+        self.__name__ = self.__qualname__ = name
 
     def __call__(self, *a, **k):
         LOG.append((self.kind, self) + tuple(a))
